@@ -204,6 +204,22 @@ Proof.
       | (intros _; now left) | (cbn; discriminate) | (cbn; discriminate) | (cbn; discriminate) | (intros _; exact IS) | (rewrite Hst; discriminate) ].
 Qed.
 
+(* giving up a pending next(): only the call marker changes *)
+Lemma Lin_dropcall s o : Lin s -> Lin (step s (DropCall o)).
+Proof.
+  intros L. unfold step. destruct (getop s o) as [c|] eqn:Hc; [|exact L]. destruct (o_status c) eqn:Hst; try exact L.
+  destruct (l_stat s L o c Hc) as (S1 & _ & _ & S4). assert (IS : is_search c) by (apply S4; unfold stream_status; now rewrite Hst).
+  assert (Nq : ~ In o (opq s)). { intros Hin. destruct (l_q s L o Hin) as (c' & Hc' & _ & _ & _ & _ & Q & _). rewrite Hc in Hc'. injection Hc' as <-. unfold qstat in Q. now rewrite Hst in Q. }
+  assert (Nr : ~ In (o_mid c, o) (rmap s)). { intros Hin. destruct (l_r s L _ _ Hin) as (c' & Hc' & _ & _ & _ & NS). rewrite Hc in Hc'. injection Hc' as <-. contradiction. }
+  apply (Lin_client_stream s _ o c (fun c0 => c0 <| o_call := None |>) L Hc Nq Nr);
+      [ reflexivity | reflexivity | reflexivity | reflexivity | reflexivity | (intros; assumption) | reflexivity | reflexivity | reflexivity | reflexivity
+      | (intros _; left; unfold op_finished; cbn; now rewrite Hst)
+      | (cbn; intros _; now apply S1)
+      | (cbn; rewrite Hst; discriminate)
+      | (cbn; rewrite Hst; discriminate)
+      | (intros _; exact IS) | (rewrite Hst; discriminate) ].
+Qed.
+
 Lemma Lin_streamfinish s o : Lin s -> Chan s -> is_running s = true -> fix25 (fx s) = true -> Lin (step s (StreamFinish o)).
 Proof.
   intros L CH Hr H25. unfold step, scrub_id. rewrite H25. destruct (getop s o) as [c|] eqn:Hc; [|exact L].
@@ -795,6 +811,7 @@ Proof.
   - apply Lin_streamfinish; try assumption; now rewrite F.
   - apply (Lin_same s); try reflexivity. exact L.
   - apply (Lin_same s); try reflexivity. exact L.
+  - now apply Lin_dropcall.
   - now apply Lin_alloc.
   - now apply Lin_enqueue.
 Qed.
@@ -885,6 +902,15 @@ Proof.
   destruct (o_status c); try exact CH; try destruct (fix20 (fx s)); destruct (is_running s); chan_k K Hc.
   all: try (intros x Hx; cbn [scrubq set updop]; apply in_or_app; now left).
   all: cbn; discriminate.
+Qed.
+
+Lemma Chan_dropcall s o : Lin s -> Chan s -> Chan (step s (DropCall o)).
+Proof.
+  intros L CH. unfold step. destruct (getop s o) as [c|] eqn:Hc; [|exact CH]. destruct (o_status c) eqn:Hst; try exact CH.
+  destruct (CH) as [C1 C2].
+  apply (Chan_upd1 s _ o c (fun c0 => c0 <| o_call := None |>) CH L Hc (G_updop _ _ _ _ Hc)); try (cbn [smap opq scrubq set updop]; tauto).
+  - cbn [smap scrubq set updop o_chan o_status]. intros Hin. destruct (C1 _ _ _ Hin Hc) as [A B]. split; [exact A|]. rewrite Hst. discriminate.
+  - cbn [opq set updop o_chan]. intros Hin IS. exact (C2 _ _ Hin Hc IS).
 Qed.
 
 Lemma Chan_start s k tmo : Lin s -> Chan s -> is_running s = true -> Chan (step s (Start k tmo)).
@@ -1127,6 +1153,7 @@ Proof.
   - apply Chan_streamfinish; try assumption; now rewrite F.
   - apply (Chan_same s); try reflexivity. exact CH.
   - apply (Chan_same s); try reflexivity. exact CH.
+  - now apply Chan_dropcall.
   - now apply Chan_alloc.
   - now apply Chan_enqueue.
 Qed.
